@@ -37,6 +37,16 @@ def harvest_leaves():
     leaves["White"] = (K.DiffWhiteKernel, [0.3], {})
     leaves["Antisym"] = (K.DiffAntisymRBF, [], {"length_scale": np.array([0.6, 0.9, 1.2])})
     leaves["PartialRBF"] = (K.PartialRBF, [], {"length_scale": np.array([0.7, 0.9]), "start": 2})
+    # additive kernels at EVERY order the feature count allows (the repository's tests stop at 2-3): the gradient of the
+    # order-n term comes from a Newton-identity recursion that only shows its normalisation from order 4 on
+    ls4 = np.array([0.5, 0.8, 1.1, 0.7])
+    for order in (1, 4):
+        sc = list(np.linspace(0.3, 1.0, order + 1))
+        leaves["ARBFo%d" % order] = (K.DiffARBF, [], {"order": order, "length_scale": ls4.copy(), "scale": list(sc)})
+        leaves["ARBFV2o%d" % order] = (K.DiffARBFV2, [], {"order": order, "length_scale": ls4.copy(), "scale": list(sc)})
+        leaves["AddRQo%d" % order] = (K.DiffAddRQ, [], {"order": order, "alpha": 1.7, "length_scale": ls4.copy(), "scale": list(sc)})
+        leaves["AddLLRBFo%d" % order] = (K.DiffAddLLRBF, [], {"order": order, "alpha": 1.7, "length_scale": ls4.copy(), "scale": list(sc)})
+    leaves["SubsetARBFo4"] = (K.SubsetARBF, [[3, 0, 2, 1]], {"order": 4, "length_scale": ls4.copy(), "scale": list(np.linspace(0.3, 1.0, 5))})
     return leaves
 
 
